@@ -144,3 +144,32 @@ Print Assumptions C16_ex_threshold.
 Theorem C16_sat_k_large_threshold : forall upto nv k vars, mk_sat_k_fast upto nv k vars = mk_sat_k upto nv k vars.
 Proof. exact mk_sat_k_fast_eq. Qed.
 Print Assumptions C16_sat_k_large_threshold.
+
+(* ======================================================================================== *)
+(* thresholds, two-sided: the constructors answer Ok exactly when every listed variable is in range (any k, any
+   order, repetitions allowed) and Panic exactly otherwise — never anything else *)
+From BddVerif Require Import Proofs.Gaps3Thresholds.
+
+Theorem C16_sat_exactly_k_ok_iff : forall nv k vars,
+  (exists r, mk_sat_k false nv k vars = Ok r) <-> (forall x, In x vars -> x < nv).
+Proof. exact (mk_sat_k_ok_iff false). Qed.
+Print Assumptions C16_sat_exactly_k_ok_iff.
+
+Theorem C16_sat_up_to_k_ok_iff : forall nv k vars,
+  (exists r, mk_sat_k true nv k vars = Ok r) <-> (forall x, In x vars -> x < nv).
+Proof. exact (mk_sat_k_ok_iff true). Qed.
+Print Assumptions C16_sat_up_to_k_ok_iff.
+
+Theorem C16_sat_k_panic_iff : forall upto nv k vars,
+  mk_sat_k upto nv k vars = Panic <-> (exists x, In x vars /\ nv <= x).
+Proof. exact mk_sat_k_panic_iff. Qed.
+Print Assumptions C16_sat_k_panic_iff.
+
+Theorem C16_sat_k_total : forall upto nv k vars,
+  ((forall x, In x vars -> x < nv) /\
+     exists r, mk_sat_k upto nv k vars = Ok r /\ Canonical r /\ nvars r = nv /\
+       forall v, eval r v = if upto then count_true v (nodup N.eq_dec vars) <=? k
+                            else count_true v (nodup N.eq_dec vars) =? k) \/
+  ((exists x, In x vars /\ nv <= x) /\ mk_sat_k upto nv k vars = Panic).
+Proof. exact mk_sat_k_total. Qed.
+Print Assumptions C16_sat_k_total.
